@@ -9,7 +9,8 @@ import argparse, json, os, shutil, subprocess, sys, tempfile, glob
 
 VERIF = os.path.dirname(os.path.dirname(os.path.abspath(__file__)))
 PY = "/venv/bin/python"
-CLAIMED = ["C01", "C05", "C06", "C07", "C08", "C09", "C10", "C11", "C12", "C13", "C14", "C15", "C16", "C17", "C19", "C20"]
+sys.path.insert(0, VERIF)
+from vstatic.main import CLAIMED  # noqa: E402
 
 
 def sh(cmd, **kw):
